@@ -71,11 +71,23 @@ func (h *HistGen) Transfer(br *Branch, used map[string]bool) interfaces.Transact
 		}
 		own = []Coin{c}
 		if h.R.Chance(35) {
-			for _, d := range cs {
+			// prefer a sibling output of the same transaction (then a rollback has to restore two
+			// indexes of one entry), else any other coin of the owner
+			var pick *Coin
+			for k := range cs {
+				d := cs[k]
 				if d.Addr == c.Addr && (d.ID != c.ID || d.Idx != c.Idx) && !used[fmt.Sprintf("%s:%d", d.ID, d.Idx)] {
-					own = append(own, d)
-					break
+					if d.ID == c.ID {
+						pick = &cs[k]
+						break
+					}
+					if pick == nil {
+						pick = &cs[k]
+					}
 				}
+			}
+			if pick != nil {
+				own = append(own, *pick)
 			}
 		}
 		break
@@ -126,6 +138,41 @@ func (h *HistGen) Block(br *Branch, txs []interfaces.Transaction, o ...MineOpts)
 		panic("harness: mine: " + err.Error())
 	}
 	return b
+}
+
+// ZeroValuePair mines two blocks on br: the first pays one account a non-zero and a zero-value output
+// (same transaction, so same index bucket), the second spends both in one transaction. nil when no
+// coin is available.
+func (h *HistGen) ZeroValuePair(br *Branch) []*types.Block {
+	var src *Coin
+	cs := h.spendable(br)
+	for k := range cs {
+		if cs[k].Value > 100000 {
+			src = &cs[k]
+			break
+		}
+	}
+	if src == nil {
+		return nil
+	}
+	a := 1 + h.R.Intn(NumUsers)
+	half := src.Value / 2
+	tx1, err := h.S.N.Transfer(src.Addr, []ctypes.OutPoint{{TxID: h.S.N.TxByID(src.ID).Hash(), Index: uint16(src.Idx)}},
+		[]Out{{To: a, Value: common.Fixed64(half)}, {To: a, Value: 0}, {To: src.Addr, Value: common.Fixed64(src.Value - half - 300)}}, h.nextNonce())
+	if err != nil {
+		panic("harness: " + err.Error())
+	}
+	b1 := h.Block(br, []interfaces.Transaction{tx1})
+	ins := []ctypes.OutPoint{{TxID: tx1.Hash(), Index: 0}, {TxID: tx1.Hash(), Index: 1}}
+	if h.R.Bool() {
+		ins[0], ins[1] = ins[1], ins[0]
+	}
+	tx2, err := h.S.N.Transfer(a, ins, []Out{{To: h.R.Intn(NumUsers + 1), Value: common.Fixed64(half - 400)}}, h.nextNonce())
+	if err != nil {
+		panic("harness: " + err.Error())
+	}
+	b2 := h.Block(Extend(br, b1), []interfaces.Transaction{tx2})
+	return []*types.Block{b1, b2}
 }
 
 // BadBlock mines a block that passes the context-free checks but not the context check: it
